@@ -165,7 +165,15 @@ fn c09(c: &mut Check) {
     let n = c.tier.pick(120, 3000);
     let cycles = c.tier.pick(30u32, 300u32);
     let _ = cycles;
-    run_e1(c, "alloc-drop-gc-cycles", n, "C09", &[], || gen::c09_case(false), |v| (cv(v, "c09_cycles") >= 10, labels_common(v)));
+    run_e1(c, "alloc-drop-gc-cycles", n, "C09", &[], || gen::c09_case(false), |v| {
+        let mut l = labels_common(v);
+        let kb = cv(v, "c09_max_used_after_empty_gc_kb");
+        if std::env::var("VH_C09_DIST").is_ok() {
+            eprintln!("C09DIST plan={} base={} kb={}", PLANS[cv(v, "plan_idx") as usize % PLANS.len()], cv(v, "build_base"), kb);
+        }
+        l.push(if kb == 0 { "empty_gc_used_0" } else if kb <= 64 { "empty_gc_used_le_64k" } else if kb <= 256 { "empty_gc_used_le_256k" } else if kb <= 1024 { "empty_gc_used_le_1m" } else { "empty_gc_used_gt_1m" });
+        (cv(v, "c09_cycles") >= 10, l)
+    });
 }
 
 fn c10(c: &mut Check) {
